@@ -147,16 +147,33 @@ def decChange (tok : String) : Option (Tgt × VMap) :=
 def reorderBy {α : Type} (key : α → Nat) (ord : List Nat) (l : List α) : List α :=
   ord.filterMap (fun t => l.find? (fun x => key x = t)) ++ l.filter (fun x => !ord.contains (key x))
 
-/-- run one invocation to completion, with an optional injected failure at effect `k` -/
-def runPlan (w : World) (_actor : Id) (plan : Plan) (inject : Option (String × Nat)) :
-    World × Nat × Bool × Option Id :=
-  -- returns the world, the number of effects executed, error?, requeue
-  let rec go (s : Sys) (q : List Id) (effs : List Effect) (k : Nat) (fuel : Nat) : Sys × List Id × Nat × Bool × Bool :=
-    -- (sys, queue additions, executed, error, completed)
+/-- run one invocation to completion, with an optional injected failure at effect `k` and an
+    optional pre-emption: before effect `hook.1` is executed another invocation runs to completion on
+    the state as it is then (`hook.2`), unless that effect is the entry half of a configuration write
+    whose values half was the previous effect (the real store call cannot be entered between them) -/
+def runPlan (w : World) (_actor : Id) (plan : Plan) (inject : Option (String × Nat))
+    (hook : Option (Nat × (Sys → Sys × List Id × String)) := none) :
+    World × Nat × Bool × Option Id × Option String :=
+  -- returns the world, the number of effects executed, error?, requeue, the pre-empting invocation's answer
+  let isVals : Effect → Bool := fun e => match e with | .cfgVals _ _ => true | .cfgAVals _ _ => true | _ => false
+  let isEntry : Effect → Bool := fun e => match e with | .cfg _ _ _ _ _ _ => true | _ => false
+  let rec go (s : Sys) (q : List Id) (effs : List Effect) (k : Nat) (prevVals : Bool) (ires : Option String)
+      (fuel : Nat) : Sys × List Id × Nat × Bool × Bool × Option String :=
+    -- (sys, queue additions, executed, error, completed, pre-emption answer)
     match fuel, effs with
-    | 0, _ => (s, q, k, false, false)
-    | _, [] => (s, q, k, false, true)
+    | 0, _ => (s, q, k, false, false, ires)
+    | _, [] => (s, q, k, false, true, ires)
     | fuel + 1, e :: rest =>
+      -- pre-emption point
+      let (s, q, ires) :=
+        match hook with
+        | some (n, f) =>
+          if n = k && !(prevVals && isEntry e) then
+            let (s1, q1, out) := f s
+            (s1, q ++ q1, some out)
+          else (s, q, ires)
+        | none => (s, q, ires)
+      let pv := isVals e
       match inject with
       | some ("fail", n) =>
         if n = k then
@@ -164,12 +181,12 @@ def runPlan (w : World) (_actor : Id) (plan : Plan) (inject : Option (String × 
           | .cfg t v u sh ash oc =>
             -- the entry half cannot fail on its own: the harness loses the compare-and-set instead
             let (s', o) := exec s (.cfg t (v + 1000000) u sh ash oc)
-            (s', q, k + 1, endsWithError o, false)
-          | _ => (s, q, k + 1, true, false)
+            (s', q, k + 1, endsWithError o, false, ires)
+          | _ => (s, q, k + 1, true, false, ires)
         else
           let (s', o) := exec s e
           let q' := q ++ (if o = .ok then wakes s' e else [])
-          if continues e o then go s' q' rest (k + 1) fuel else (s', q', k + 1, endsWithError o, false)
+          if continues e o then go s' q' rest (k + 1) pv ires fuel else (s', q', k + 1, endsWithError o, false, ires)
       | some ("conflict", n) =>
         let e' : Effect := if n = k then
             (match e with
@@ -178,18 +195,75 @@ def runPlan (w : World) (_actor : Id) (plan : Plan) (inject : Option (String × 
               | .cfg t v u sh ash oc => .cfg t (v + 1000000) u sh ash oc
               | other => other)
           else e
-        if n = k && (match e with | .dev _ => true | _ => false) then (s, q, k + 1, true, false) else
+        if n = k && (match e with | .dev _ => true | _ => false) then (s, q, k + 1, true, false, ires) else
         let (s', o) := exec s e'
         let q' := q ++ (if o = .ok then wakes s' e' else [])
-        if continues e' o then go s' q' rest (k + 1) fuel else (s', q', k + 1, endsWithError o, false)
+        if continues e' o then go s' q' rest (k + 1) pv ires fuel else (s', q', k + 1, endsWithError o, false, ires)
       | _ =>
         let (s', o) := exec s e
         let q' := q ++ (if o = .ok then wakes s' e else [])
-        if continues e o then go s' q' rest (k + 1) fuel else (s', q', k + 1, endsWithError o, false)
-  let (s', q, n, err, completed) := go w.sys [] plan.effects 0 (plan.effects.length + 1)
+        if continues e o then go s' q' rest (k + 1) pv ires fuel else (s', q', k + 1, endsWithError o, false, ires)
+  let (s', q, n, err, completed, ires) := go w.sys [] plan.effects 0 false none (plan.effects.length + 1)
   let rq : Option Id := if completed then plan.requeue else none
   -- `retry` plans carry their own id as requeue and no effects: that is the error return
-  ({ w with sys := s', queue := w.queue ++ q }, n, err, rq)
+  ({ w with sys := s', queue := w.queue ++ q }, n, err, rq, ires)
+
+/-- one whole invocation of `id` on world `w0`: plan, hint search over the iteration orders of the Go
+    maps (`vals=`, `devlog=`, `rb=` hints under the given key prefix), execution -/
+def runOne (w0 : World) (id : Id) (env : Env) (hints : List String) (pfx : String)
+    (inject : Option (String × Nat)) (hook : Option (Nat × (Sys → Sys × List Id × String))) :
+    (World × Nat × Bool × Option Id × Option String) × Plan :=
+  let tgt : Nat := match id with
+    | .prop p => p.1 | .cfg t => t | .mast t => t | .tx _ => 0
+  let runWith (nC nU : Nat) : (World × Nat × Bool × Option Id × Option String) × Plan :=
+    let plan := reconcile w0.sys id { env with ordU := nU, ordC := nC }
+    (runPlan w0 id plan inject hook, plan)
+  let okHints (r : (World × Nat × Bool × Option Id × Option String) × Plan) : Bool :=
+    (match kv hints (pfx ++ "vals") with
+      | some want =>
+        (match r.1.1.sys.cfg? tgt with
+          | some (c : Cfg) => encVals c.view == want
+          | none => want == "-")
+      | none => true) &&
+    (match kv hints (pfx ++ "devlog") with
+      | some want => ";".intercalate (r.1.1.sys.devLog.map encReq) == want
+      | none => true) &&
+    (match kv hints (pfx ++ "rb"), id with
+      | some want, .prop pid =>
+        (match r.1.1.sys.prop? pid with
+          | some (p : Proposal) => encVals p.rbValues == want
+          | none => true)
+      | _, _ => true)
+  let first := runWith 0 0
+  if okHints first then first
+  else ((List.range 24).findSome? fun nC =>
+    (List.range 24).findSome? fun nU =>
+      let r := runWith nC nU
+      if okHints r then some r else none).getD first
+
+/-- environment and world preparation shared by the invocation and the pre-empting one: the election
+    hint (`master=`) and the order of the per-target changes of a transaction (`order=`) -/
+def prepare (w : World) (id : Id) (env0 : Env) (hints : List String) (pfx : String) : World × Env :=
+  let env : Env := match id, (kv hints (pfx ++ "master")).bind String.toNat? with
+    | .mast t, some m =>
+      let live := w.sys.rels.filter (fun r => r.target = t)
+      match live.findIdx? (fun r => r.id = m) with
+      | some i => { env0 with pick := i }
+      | none => env0
+    | _, _ => env0
+  let w0 : World :=
+    match kv hints (pfx ++ "order"), id with
+    | some ord, .tx i =>
+      let ordL := (ord.splitOn "+").filterMap String.toNat?
+      match w.sys.tx? i with
+      | some t =>
+        let src := if t.isRollback then t.rollbackIndex else i
+        match w.sys.tx? src with
+        | some t2 => { w with sys := w.sys.setTx { t2 with changes := reorderBy (·.1) ordL t2.changes } }
+        | none => w
+      | none => w
+    | _, _ => w
+  (w0, env)
 
 def handleIO (op : String) (args : List String) : IO (Option String) := do
   let st ← stateRef.get
@@ -238,65 +312,41 @@ def handleIO (op : String) (args : List String) : IO (Option String) := do
     match decId idTok with
     | none => pure none
     | some id =>
-      let tgt : Nat := match id with
+      let tgtOf : Id → Nat := fun id => match id with
         | .prop p => p.1 | .cfg t => t | .mast t => t | .tx _ => 0
-      let env0 := decEnv rest (st.persistent.contains tgt)
-      -- hint from the real run: which relation the (random) election picked
-      let env : Env := match id, (kv rest "master").bind String.toNat? with
-        | .mast t, some m =>
-          let live := st.w.sys.rels.filter (fun r => r.target = t)
-          match live.findIdx? (fun r => r.id = m) with
-          | some i => { env0 with pick := i }
-          | none => env0
-        | _, _ => env0
-      -- hints from the real run: the order in which the Go map of per-target changes was iterated
-      let w0 : World :=
-        match kv rest "order", id with
-        | some ord, .tx i =>
-          let ordL := (ord.splitOn "+").filterMap String.toNat?
-          match st.w.sys.tx? i with
-          | some t =>
-            let src := if t.isRollback then t.rollbackIndex else i
-            match st.w.sys.tx? src with
-            | some t2 => { st.w with sys := st.w.sys.setTx { t2 with changes := reorderBy (·.1) ordL t2.changes } }
-            | none => st.w
-          | none => st.w
-        | _, _ => st.w
+      let env0 := decEnv rest (st.persistent.contains (tgtOf id))
+      let (w0, env) := prepare st.w id env0 rest ""
       let inject : Option (String × Nat) :=
         match (kv rest "inject").map (·.splitOn ":") with
         | some [k, n] => n.toNat?.map fun n => (k, n)
         | _ => none
-      -- the iteration order of the updated change is a hint too: pick the permutation whose
-      -- resulting side map is the one observed (`vals=`), identity when there is no hint
-      let runWith (nC nU : Nat) : (World × Nat × Bool × Option Id) × Plan :=
-        let plan := reconcile w0.sys id { env with ordU := nU, ordC := nC }
-        (runPlan w0 id plan inject, plan)
-      -- hints from the real run for the iteration orders of Go maps: the side map and the
-      -- proposal's rollback values that resulted; the twin searches the orders that give them
-      let okHints (r : (World × Nat × Bool × Option Id) × Plan) : Bool :=
-        (match kv rest "vals" with
-          | some want =>
-            (match r.1.1.sys.cfg? tgt with
-              | some (c : Cfg) => encVals c.view == want
-              | none => want == "-")
-          | none => true) &&
-        (match kv rest "devlog" with
-          | some want => ";".intercalate (r.1.1.sys.devLog.map encReq) == want
-          | none => true) &&
-        (match kv rest "rb", id with
-          | some want, .prop pid =>
-            (match r.1.1.sys.prop? pid with
-              | some (p : Proposal) => encVals p.rbValues == want
-              | none => true)
-          | _, _ => true)
-      let first := runWith 0 0
-      let pickRes : (World × Nat × Bool × Option Id) × Plan :=
-        if okHints first then first
-        else ((List.range 24).findSome? fun nC =>
-          (List.range 24).findSome? fun nU =>
-            let r := runWith nC nU
-            if okHints r then some r else none).getD first
-      let ((w', n, err, rq), plan) := pickRes
+      -- pre-emption `inter=<k>:<id>`: before effect k another invocation (default environment, its own
+      -- hints under the prefix `i.`) runs to completion
+      let hook : Option (Nat × (Sys → Sys × List Id × String)) :=
+        match kv rest "inter" with
+        | none => none
+        | some v =>
+          match v.splitOn ":" with
+          | kS :: idToks =>
+            match kS.toNat?, decId (":".intercalate idToks) with
+            | some k, some bid =>
+              some (k, fun s =>
+                let wB : World := { sys := s }
+                let envB0 : Env := { persistent := st.persistent.contains (tgtOf bid) }
+                let (wB0, envB) := prepare wB bid envB0 rest "i."
+                let ((wB', nB, errB, rqB, _), planB) := runOne wB0 bid envB rest "i." none none
+                let planErrB := planB.err && nB == planB.effects.length && !errB
+                let rqS := match rqB with
+                  | some r => encId r
+                  | none => "-"
+                let errS := if errB || planErrB then "1" else "0"
+                let cfgs := (wB'.sys.cfgs.toArray.qsort (fun a b => a.target < b.target)).toList
+                let mid := if cfgs.isEmpty then "-" else
+                  "+".intercalate (cfgs.map fun c => s!"{c.target}.{c.committed}.{c.applied}.{c.master}.{c.term}.{c.appliedTerm}")
+                (wB'.sys, wB'.queue ++ rqB.toList, s!"ires={rqS}/{errS}/{nB}/{mid}"))
+            | _, _ => none
+          | _ => none
+      let ((w', n, err, rq, ires), plan) := runOne w0 id env rest "" inject hook
       let planErr := plan.err && n == plan.effects.length && !err
       let w'' := { w' with queue := (w'.queue.erase id) ++ rq.toList }
       stateRef.set { st with w := w'' }
@@ -304,7 +354,10 @@ def handleIO (op : String) (args : List String) : IO (Option String) := do
       let rqS := match rq with
         | some r => encId r
         | none => "-"
-      pure (some s!"res requeue={rqS} err={errS} effects={n} {encSys w''.sys}")
+      let iS := match ires with
+        | some x => " " ++ x
+        | none => ""
+      pure (some s!"res requeue={rqS} err={errS} effects={n}{iS} {encSys w''.sys}")
   | "state", _ => pure (some (encSys st.w.sys))
   | "doc", [idTok] => do
     match decId idTok with
